@@ -74,6 +74,20 @@ type Output struct {
 	Unsupported []string          `json:"unsupported"`
 	Facts       map[string]string `json:"facts"`
 	FlagWrites  []string          `json:"flag_writes"` // every write of isQuery/nestedView found anywhere in the package
+	// the trusted base, made explicit for the dynamic part of C20 (checks/c20.py, harness/state/verif_pure_test.go):
+	// every call the model treats as pure because of pureMethods / a "pure" entry of pkgFuncs, with its call site
+	PureCalls   []*PureCall       `json:"pure_calls"`
+	PureMethods []string          `json:"pure_methods"`   // the table pureMethods
+	PurePkgFunc []string          `json:"pure_pkg_funcs"` // the "pure" entries of pkgFuncs
+}
+
+// PureCall is one call site the extractor drops from the model as read-only.
+type PureCall struct {
+	Name  string   `json:"name"`           // method name, or pkg.Func
+	Recv  string   `json:"recv,omitempty"` // receiver expression (text), methods only
+	RT    string   `json:"rt,omitempty"`   // receiver type when the extractor knows it
+	Src   string   `json:"src"`
+	Procs []string `json:"procs"` // processes the call site was compiled into
 }
 
 func (p *Proc) add(n *Node) int {
